@@ -51,6 +51,12 @@ impl<T: RealNumber> F1<T> {
         let p = Precision {}.get_score(y_true, y_pred);
         let r = Recall {}.get_score(y_true, y_pred);
 
+        if p.is_nan() != r.is_nan() {
+            // no predicted positive (precision 0/0) or no actual positive (recall 0/0), but not both:
+            // there is no true positive and the confusion counts give F = 0
+            return T::zero();
+        }
+
         let denominator = beta2 * p + r;
         if denominator == T::zero() {
             // no true positive although precision and recall are defined: the confusion counts give F = 0
